@@ -247,3 +247,17 @@ pub fn first_packet_credit_native(a: u8, b: u8, c: u8) -> u32 {
     assert!(conn.path.anti_amplification_blocked(3 * want + 1 - conn.path.total_sent.min(3 * want)));
     1
 }
+
+/// Native replay body for the E2 query `e2_on_packet_authenticated` (C04): every authenticated
+/// packet - also one without a packet number (Retry, Version Negotiation) - counts towards
+/// `total_authed_packets`, the counter that stops a client from following a Retry or a Version
+/// Negotiation after it has accepted a server packet.
+pub fn on_packet_authenticated_native(has_pn: bool) -> u32 {
+    let mut conn = mk_conn(false, false);
+    let now = crate::verif::mk_instant(51, 0).unwrap();
+    let n0 = conn.total_authed_packets;
+    conn.on_packet_authenticated(now, SpaceId::Initial, None, if has_pn { Some(0) } else { None }, false, false);
+    assert!(conn.total_authed_packets == n0 + 1, "authenticated packet not counted");
+    assert!(conn.permit_idle_reset);
+    1
+}
